@@ -139,4 +139,189 @@ def run(seed, n_random, stats):
                                    "why": "parse_row splits %r into %r, the documented grammar says %r" % (text, got, exp)})
             if len(stats.samples) < 4:
                 stats.samples.append({"line": text, "expected": exp, "library": a})
+    mm2, vv2 = run_guards(seed, 49 if n_random <= 2000 else 409, stats)
+    return mismatches + mm2, violations + vv2
+
+# ---------------------------------------------------------------------------------------------------
+# guard expressions: the grammar of C++ precedence (or-chains of and-chains of unary expressions), any nesting
+GNAMES = ["a", "b", "c", "d", "e", "f", "g1", "Guard_2", "x9"]
+
+def gen_gexp(rng, depth, level=2):
+    """returns a tree: ("name", n) | ("not", pad, e) | ("paren", p1, e, p2) | ("and", a, p1, p2, b) | ("or", a, p1, p2, b);
+    level: 2 = or-chain allowed, 1 = and-chain, 0 = unary"""
+    bl = lambda: "".join(rng.choice(" \t") if rng.random() < 0.2 else " " for _ in range(rng.choice([0, 0, 1, 1, 2, 3])))
+    r = rng.random()
+    if level == 2 and r < 0.3:
+        return ("or", gen_gexp(rng, depth, 1), bl(), bl(), gen_gexp(rng, depth, 2))
+    if level >= 1 and r < 0.6:
+        return ("and", gen_gexp(rng, depth, 0), bl(), bl(), gen_gexp(rng, depth, 1))
+    r = rng.random()
+    if r < 0.2:
+        return ("not", bl() if rng.random() < 0.3 else "", gen_gexp(rng, depth, 0))
+    if r < 0.45 and depth > 0:
+        return ("paren", bl(), gen_gexp(rng, depth - 1, 2), bl())
+    return ("name", rng.choice(GNAMES))
+
+def gprint(e):
+    k = e[0]
+    if k == "name": return e[1]
+    if k == "not": return "!" + e[1] + gprint(e[2])
+    if k == "paren": return "(" + e[1] + gprint(e[2]) + e[3] + ")"
+    op = "&&" if k == "and" else "||"
+    return gprint(e[1]) + e[2] + op + e[3] + gprint(e[4])
+
+def gerase(e):
+    k = e[0]
+    if k == "name": return e[1]
+    if k == "not": return "(not %s)" % gerase(e[2])
+    if k == "paren": return gerase(e[2])
+    return "(%s %s %s)" % (k, gerase(e[1]), gerase(e[4]))
+
+def gdepth(e):
+    k = e[0]
+    if k == "name": return 0
+    if k == "not": return gdepth(e[2])
+    if k == "paren": return 1 + gdepth(e[2])
+    return max(gdepth(e[1]), gdepth(e[4]))
+
+GUARD_PROBE = r'''
+#include <boost/msm/front/puml/puml.hpp>
+#include <boost/fusion/include/at_c.hpp>
+#include <cstdio>
+#include <string>
+using namespace boost::msm::front; using namespace boost::msm::front::puml;
+template<class T> struct Show { static std::string s(){ return "?"; } };
+template<class A,class B> struct Show<And_<A,B>> { static std::string s(){ return "(and " + Show<A>::s() + " " + Show<B>::s() + ")"; } };
+template<class A,class B> struct Show<Or_<A,B>> { static std::string s(){ return "(or " + Show<A>::s() + " " + Show<B>::s() + ")"; } };
+template<class A> struct Show<Not_<A>> { static std::string s(){ return "(not " + Show<A>::s() + ")"; } };
+template<> struct Show<none> { static std::string s(){ return "none"; } };
+#define NAME(n) template<> struct Show<Guard<by_name(#n)>> { static std::string s(){ return #n; } };
+NAMES
+template<class S,class E,class T,class A,class G> struct Show<Row<S,E,T,A,G>> { static std::string s(){ return Show<G>::s(); } };
+#define CASE(str) { auto t = create_transition_table([](){ return str; }); \
+  typedef std::remove_cvref_t<decltype(boost::fusion::at_c<0>(t))> R; std::printf("%s\n", Show<R>::s().c_str()); }
+int main(){
+CASES
+}
+'''
+
+def cstr(s):
+    return '"' + s.replace("\\", "\\\\").replace('"', '\\"').replace("\t", "\\t") + '"'
+
+def build_guard_probe(lines):
+    src = GUARD_PROBE.replace("NAMES", " ".join("NAME(%s)" % n for n in GNAMES)).replace("CASES", "\n".join("CASE(%s)" % cstr(l) for l in lines))
+    d = os.path.join(corr.CACHE, corr.repo_hash())
+    os.makedirs(d, exist_ok=True)
+    exe = os.path.join(d, "guard_probe_" + hashlib.sha256(src.encode()).hexdigest()[:12])
+    if os.path.exists(exe):
+        return exe, None
+    tmpd = tempfile.mkdtemp(prefix="tmp.", dir=corr.CACHE)
+    try:
+        open(os.path.join(tmpd, "g.cpp"), "w").write(src)
+        r = subprocess.run(["g++", "-std=gnu++20", "-O0", "-w", "-I", os.path.join(corr.REPO, "include"),
+                            os.path.join(tmpd, "g.cpp"), "-o", os.path.join(tmpd, "g")], capture_output=True, text=True)
+        if r.returncode != 0:
+            return None, r.stderr[-3000:]
+        os.replace(os.path.join(tmpd, "g"), exe)
+        return exe, None
+    finally:
+        shutil.rmtree(tmpd, ignore_errors=True)
+
+def sx_parse(text):
+    toks = text.replace("(", " ( ").replace(")", " ) ").split()
+    def rd(i):
+        if toks[i] == "(":
+            op = toks[i + 1]
+            args, i = [], i + 2
+            while toks[i] != ")":
+                a, i = rd(i)
+                args.append(a)
+            return (op, args), i + 1
+        return toks[i], i + 1
+    t, i = rd(0)
+    if i != len(toks):
+        raise ValueError(text)
+    return t
+
+def sx_eval(t, v):
+    if isinstance(t, str):
+        return v[t]
+    op, args = t
+    if op == "not": return not sx_eval(args[0], v)
+    if op == "and": return sx_eval(args[0], v) and sx_eval(args[1], v)
+    if op == "or": return sx_eval(args[0], v) or sx_eval(args[1], v)
+    raise ValueError(op)
+
+def sx_names(t, acc):
+    if isinstance(t, str):
+        acc.add(t)
+    else:
+        for a in t[1]:
+            sx_names(a, acc)
+    return acc
+
+def same_meaning(a, b):
+    """both trees denote the same boolean function of the named guards (evaluation order is left to right in both)"""
+    if a is None or b is None or "?" in a or a == "NONE":
+        return False
+    try:
+        ta, tb = sx_parse(a), sx_parse(b)
+    except Exception:
+        return False
+    names = sorted(sx_names(ta, set()) | sx_names(tb, set()))
+    if len(names) > 12:
+        return a == b
+    for bits in itertools.product([False, True], repeat=len(names)):
+        v = dict(zip(names, bits))
+        if sx_eval(ta, v) != sx_eval(tb, v):
+            return False
+    return True
+
+def run_guards(seed, n, stats):
+    """guard expressions of the grammar -> (mismatches model-vs-impl, violations impl-vs-C++-precedence)"""
+    rng = random.Random("guards/%d" % seed)
+    cases = []
+    fixed = ["a && b || (c && d)", "(a || b) && (c || d)", "a || b && c", "!(a && b) || c && !d", "((a || b) && c) || d",
+             "a && (b || c) && d", "!a", "a", "!!a", "( a )", "!( a||b )&&!  ( c )"]
+    for g in fixed:
+        cases.append((g, None))
+    while len(cases) < len(fixed) + n:
+        e = gen_gexp(rng, rng.choice([0, 1, 1, 2, 3]))
+        cases.append((gprint(e), e))
+    lines, exps = [], []
+    for i, (g, e) in enumerate(cases):
+        shape = rng.choice([0, 1, 2])
+        line = "S1 -> S2 : ev " + ("/ act " if shape == 1 else "") + "[" + pad(rng, 0, 2) + g + pad(rng, 0, 2) + "]" + (" / act" if shape == 2 else "")
+        lines.append(line)
+        exps.append(gerase(e) if e is not None else None)
+    # the fixed strings: expected trees written by hand (C++ precedence)
+    hand = ["(or (and a b) (and c d))", "(and (or a b) (or c d))", "(or a (and b c))", "(or (not (and a b)) (and c (not d)))",
+            "(or (and (or a b) c) d)", "(and a (and (or b c) d))", "(not a)", "a", "(not (not a))", "a", "(and (not (or a b)) (not c))"]
+    for i, h in enumerate(hand):
+        exps[i] = h
+    mismatches, violations = [], []
+    for lo in range(0, len(lines), 60):
+        chunk = lines[lo:lo + 60]
+        exe, err = build_guard_probe(chunk)
+        if exe is None:
+            mismatches.append({"machine": "guard_probe", "cfg": "puml", "kind": "build", "detail": err, "md": None, "ops": chunk[:3]})
+            continue
+        stats.programs += 1
+        impl = subprocess.run([exe], capture_output=True, text=True, timeout=120).stdout.split("\n")
+        model = subprocess.run([corr.MODEL, "guard"], input="\n".join(chunk) + "\n", capture_output=True, text=True, timeout=120).stdout.split("\n")
+        for k, line in enumerate(chunk):
+            a = impl[k] if k < len(impl) else None
+            b = model[k] if k < len(model) else None
+            exp = exps[lo + k]
+            stats.traces += 1
+            stats.evaluations += 1
+            e = cases[lo + k][1]
+            stats.dist[("guard parenthesis depth", gdepth(e) if e else "hand-written")] += 1
+            stats.nontrivial.add(("guard", line))
+            if a != b:
+                mismatches.append({"machine": "puml guard", "cfg": "puml", "kind": "trace",
+                                   "detail": {"line": line, "impl": a, "model": b}, "md": None, "ops": [line]})
+            if not same_meaning(a, exp):
+                violations.append({"machine": "puml guard", "cfg": "puml", "md": None, "ops": [line],
+                                   "why": "the guard of %r is built as %s, C++ precedence gives %s" % (line, a, exp)})
     return mismatches, violations
